@@ -14,7 +14,7 @@ CLAIMS = {
             'trusted: extractor T1-T10, sequential view, std Path/iterator/DashMap shims, is_fixture_imported_in_file abstract, goto handler glue and word-at-cursor lookup not covered', '§5-C01'),
     'C02': ('proof', 'find_closest_definition_excluding is proved to compute op_resolve with the filter d != D; lemmas: the answer is never D, always a registered definition passing the filter.',
             'as C01; references handler glue not covered', '§5-C02'),
-    'C03': ('proof', 'AST -> record, for ALL rustpython ASTs (real AST types linked with --extern): the whole of decorators.rs (fixture / mark recognisers, name= / scope= / autouse= extraction, usefixtures names incl. nested lists/tuples, indirect parametrize), find_yield_line / find_yield_in_stmt / find_yield_in_expr, contains_yield, extract_docstring, extract_return_type / extract_yielded_type and collect_module_level_names are proved equal to recursive spec functions written from the documented forms; lemmas: exactly the documented decorator forms (look-alikes rejected), keyword extraction ignores non-constants, the two yield searches agree (false before the contains_yield fix). The visitor that wires these into records (visit_stmt) is not covered; the comparison with CPython\'s parser is out of reach.',
+    'C03': ('proof', 'AST -> record, for ALL rustpython ASTs (real AST types linked with --extern): the whole of decorators.rs (fixture / mark recognisers, name= / scope= / autouse= extraction, usefixtures names incl. nested lists/tuples, indirect parametrize), find_yield_line / find_yield_in_stmt / find_yield_in_expr, contains_yield, extract_docstring, extract_return_type / extract_yielded_type and collect_module_level_names are proved equal to recursive spec functions written from the documented forms; lemmas: exactly the documented decorator forms (look-alikes rejected), keyword extraction ignores non-constants, the two yield searches agree (false before the contains_yield fix). The visitors visit_stmt / visit_assignment_fixture / visit_pytestmark_assignment / all_args are proved against visit_defs / visit_uses (every field of every recorded definition and usage, recording order, class recursion; lemmas: plain functions/classes/nested code record nothing, dependencies = parameters minus self/request in order, name= wins, spans). The comparison with CPython\'s parser is out of reach.',
             'trusted: generated AST type specs (tools/gen_astspec.py), iterator wrapper specs, string rendering uninterpreted', '§5-C03'),
     'C04': ('proof', 'find_references_for_definition is proved to return exactly the reverse-index bucket of the definition\'s name filtered by "this usage resolves to the definition" (op_refs), find_fixture_definition (go-to-definition) is proved to resolve the first recorded usage under the cursor with the same resolve_usage function; lemmas: an entry is listed iff it resolves to D, unresolved usages are listed nowhere, one list element per index entry, goto on a usage == resolve_usage of that usage. The mirror between usages and usage_by_fixture is proved per mutator (unit index_maint).',
             'trusted: as C01; wf clause unique_at_line assumed; code-lens / call-hierarchy / CLI counts glue not covered', '§5-C04'),
@@ -22,13 +22,13 @@ CLAIMS = {
             'trusted: as C01; HashMap/HashSet shims; sort/join key model; derive(PartialOrd) via Kani', '§5-C16'),
     'C17': ('proof', 'Precision clause, availability part: is_available_fixture is proved to return true exactly when some registered definition of the name is in the same file, in a conftest.py whose directory is a prefix of the file path, a plugin or third-party definition; lemmas: a name no fixture carries is never available, a name is never available merely because an unrelated module defines it. The expression visitor (which uses are examined) and the quick fix are not covered.',
             'trusted: as C01 plus Path helper expressions moved into external_body helpers with assumed contracts', '§5-C17'),
-    'C18': ('proof', 'The offered-set algebra of completion is proved exactly: filter_and_enrich_fixtures returns available filtered by !excluded in order, is_fixture_excluded/should_exclude_fixture/fixture_sort_priority equal their specs (self/cls, declared params, current fixture, narrower scope; same-file 0 < project 1 < plugin 2 < third-party 3); lemmas: every name once, excluded never offered. Context classification (where completion is offered) is not covered.',
+    'C18': ('proof', 'The offered-set algebra of completion is proved exactly: filter_and_enrich_fixtures returns available filtered by !excluded in order, is_fixture_excluded/should_exclude_fixture/fixture_sort_priority equal their specs (self/cls, declared params, current fixture, narrower scope; same-file 0 < project 1 < plugin 2 < third-party 3); lemmas: every name once, excluded never offered. The AST path of get_completion_context (get_func_context, get_function_completion_context, check_decorator_context, cursor_inside_usefixtures_call) is proved exactly: first enclosing test/fixture function in statement order incl. class recursion, declared_params = all parameter kinds, scope of the first scoped fixture decorator; the text fallback is uninterpreted.',
             'trusted: extractor incl. //@item, format! builders uninterpreted, derive(PartialOrd) via Kani', '§5-C18'),
     'C19': ('proof', 'Config::from_raw is proved to keep exactly the valid diagnostic codes and valid glob patterns element-wise (order preserved, other settings passed through) and is_diagnostic_disabled to be membership; lemmas: bad entries are ignored individually, settings are independent. The publish path and TOML parsing are not covered.',
             'trusted: glob::Pattern::new abstract, slice::contains / String==str / filter_map wrapper assumed', '§5-C19'),
     'C05': ('proof', 'compute_available_fixtures (ten hash-ordered loops, the conftest walk, the final sort) is proved against avail_post: sorted by name, one entry per name, every entry is avail_pick of its name (soundness) and every visible name has an entry (completeness); resolve_fixture_for_file == op_resolve_ff; lemmas: the per-file view agrees with go-to-definition (op_resolve) whenever the file defines the name at most once and the import tests agree — the hypotheses are exactly the known findings F-05a (same-file redefinition: first vs last) and F-05b (resolve_fixture_for_file is a different resolver).',
             'trusted: as C01 plus sort/Path specs; the handlers\' choice of resolver is a table, not proved', '§5-C05'),
-    'C06': ('proof', 'analyze_file_internal is proved, for every text and every index state, to (i) keep the whole index when the text does not parse, (ii) otherwise replace exactly the analysed file\'s entries: the index is the old one with F\'s definitions/usages cleaned (exact postconditions of cleanup_definitions_for_file / cleanup_usages_for_file, proved in unit index_maint) plus what the visitors record for the current text; lemmas: under the reverse-index invariant W1 the entries of F after an analysis are exactly those of the current text whatever was there before, other files\' entries are untouched in order. The visitors are abstract (A7).',
+    'C06': ('proof', 'analyze_file_internal is proved, for every text and every index state, to (i) keep the whole index when the text does not parse, (ii) otherwise replace exactly the analysed file\'s entries: the index is the old one with F\'s definitions/usages cleaned (exact postconditions of cleanup_definitions_for_file / cleanup_usages_for_file, proved in unit index_maint) plus what the visitors record for the current text; lemmas: under the reverse-index invariant W1 the entries of F after an analysis are exactly those of the current text whatever was there before, other files\' entries are untouched in order. The visitors are under contract in unit visit (analyze uses their proved contract).',
             'trusted: extractor, sequential view, DashMap/HashSet shims, parser abstract (parse_ok/ast_of), visitors abstract (vdefs/vuses, A7)', '§5-C06'),
     'C07': ('proof', 'The memo wrappers get_available_fixtures and detect_fixture_cycles are proved to return what a recomputation returns (warm == cold) under a cache invariant, and to re-establish it; analyze_file_internal is proved to move definitions_version on every call (after fix), which is what keeps the invariant across edits. Three genuine defects found on the way were repaired (F-07a/b/c).',
             'trusted: as C06; compute_* abstract; get_imported_fixtures memo and eviction not under contract', '§5-C07'),
